@@ -27,24 +27,38 @@ Asts == TLCEval([i \in 1..NI |-> AstOf(Items[i].calls, 1, <<>>)])
 ModelSm(i) == MarkEnds(Mdl[i].sm, Items[i].slice[1], Items[i].slice[1] + Items[i].slice[2] - 1, 0)
 Models == TLCEval([i \in 1..NI |-> ModelSm(i)])
 
-VARIABLES px, qr, qm, ds, wit
-vars == <<px, qr, qm, ds, wit>>
+VARIABLES px, qr, qm, ds, wit, gk      \* gk: 0 in the exploration; the index of the given string in GivenSpec
+vars == <<px, qr, qm, ds, wit, gk>>
 vw == <<px, qr, qm, ds>>
 
-Init == \E i \in 1..NI : px = i /\ qr = 0 /\ qm = 0 /\ ds = {Asts[i][1]} /\ wit = <<>>
+Init == \E i \in 1..NI : px = i /\ qr = 0 /\ qm = 0 /\ ds = {Asts[i][1]} /\ wit = <<>> /\ gk = 0
 StepReal(i, q, c) == IF q = DEAD THEN DEAD ELSE LET x == Items[i].dfa[q + 1].tr[c] IN IF x = NONE THEN DEAD ELSE x
 StepModel(i, q, c) == IF q = DEAD THEN DEAD ELSE LET x == Models[i][q + 1].tr[c] IN IF x = NONE THEN DEAD ELSE x
 Next == \E c \in 1..Items[px].K :
           /\ qr' = StepReal(px, qr, c) /\ qm' = StepModel(px, qm, c) /\ ds' = PDSet(c, ds)
-          /\ wit' = Append(wit, c) /\ UNCHANGED px
+          /\ wit' = Append(wit, c) /\ UNCHANGED <<px, gk>>
           /\ ~(qr' = DEAD /\ qm' = DEAD /\ ds' = {})
 Spec == Init /\ [][Next]_vars
+
+\* GIVEN strings (Items[i].giv: strings over the segment alphabet): one deterministic walk per string through the three
+\* machines; the outcome of each is printed (RXGIVEN) - the expected verdict of regex::expr<P>::match for that very string
+InitG == \E i \in 1..NI : \E k \in 1..Len(Items[i].giv) :
+           px = i /\ gk = k /\ qr = 0 /\ qm = 0 /\ ds = {Asts[i][1]} /\ wit = <<>>
+NextG == /\ gk > 0 /\ Len(wit) < Len(Items[px].giv[gk])
+         /\ LET c == Items[px].giv[gk][Len(wit) + 1] IN
+            /\ qr' = StepReal(px, qr, c) /\ qm' = StepModel(px, qm, c) /\ ds' = PDSet(c, ds)
+            /\ wit' = Append(wit, c)
+         /\ UNCHANGED <<px, gk>>
+GivenSpec == InitG /\ [][NextG]_vars
 
 RealAcc == qr # DEAD /\ Items[px].dfa[qr + 1].rec # <<>>
 ModelAcc == qm # DEAD /\ Models[px][qm + 1].rec # <<>>
 RefAcc == AnyNul(ds)
 RefReported == (RealAcc <=> RefAcc) \/ PrintT(<<"RXREF", ToJson([id |-> Items[px].id, w |-> wit, real |-> RealAcc, ref |-> RefAcc])>>)
 ModelReported == (RealAcc <=> ModelAcc) \/ PrintT(<<"RXMODEL", ToJson([id |-> Items[px].id, w |-> wit, real |-> RealAcc, model |-> ModelAcc])>>)
+
+GivenReported == (gk > 0 /\ Len(wit) = Len(Items[px].giv[gk])) =>
+                   PrintT(<<"RXGIVEN", ToJson([id |-> Items[px].id, k |-> gk, real |-> RealAcc, model |-> ModelAcc, ref |-> RefAcc])>>)
 
 StateSame(i, q) == LET r == Items[i].dfa[q] m == Models[i][q] IN
                    /\ r.en = m.en /\ r.un = m.un /\ r.rec = m.rec /\ r.tr = [s \in 1..Items[i].K |-> m.tr[s]]
